@@ -195,16 +195,16 @@ def random_batches(seed, tier, n_quick, n_thorough, nops, dicts=("A",), **kw):
     return out
 
 
-def design_phys(out, maxops, v4, cycles, timeout=3000):
+def design_phys(out, maxops, v4, cycles, timeout=3000, invs="InvFree InvCounts InvWF InvAbs NoGrowth InvOpen", what=None):
     """Exhaustive design-level run of MC_Phys (CfbPhys at tiny geometry).  Its verdict is about the
     model; conformance of the code to the model is what phys_fidelity reports."""
     b = lambda x: "TRUE" if x else "FALSE"
     cfg = f"""SPECIFICATION Spec
 CONSTANTS Names = {{"a", "b", "c"}} Sizes = {{0, 1, 3, 7, 8, 9, 13}} MaxOps = {maxops} V4 = {b(v4)} Cycles = {b(cycles)} OldPolicy = FALSE
-INVARIANT InvFree InvCounts InvWF InvAbs NoGrowth
+INVARIANT {invs}
 CHECK_DEADLOCK FALSE
 """
-    tag = f"mcp_{out.prop}_{maxops}_{int(v4)}_{int(cycles)}"
+    tag = f"mcp_{out.prop}_{maxops}_{int(v4)}_{int(cycles)}_{len(invs)}"
     path = os.path.join(core.SPEC, f"_{tag}.cfg")
     open(path, "w").write(cfg)
     try:
@@ -216,8 +216,9 @@ CHECK_DEADLOCK FALSE
         raise core.ToolError("MC_Phys (design level) failed:\n" + "\n".join(lines[-30:]))
     gen, distinct = core.tlc_stats(lines)
     out.add_design(gen, distinct)
-    out.parts.append({"design": f"MC_Phys tiny geometry MaxOps={maxops} V4={v4} cycles={cycles}: WF (R1-R8), free lists, counters, "
-                                f"lengths refinement, NoGrowth", "states": distinct, "transitions": gen})
+    out.parts.append({"design": f"MC_Phys tiny geometry MaxOps={maxops} V4={v4} cycles={cycles}: " +
+                                (what or "WF (R1-R8), free lists, counters, lengths refinement, NoGrowth, acceptance by the open-path model (InvOpen)"),
+                      "invariants": invs, "states": distinct, "transitions": gen})
 
 
 class Fidelity:
@@ -235,8 +236,33 @@ class Fidelity:
             kinds[k] = kinds.get(k, 0) + 1
         for k, n in sorted(kinds.items()):
             print(f"SPEC-DRIFT {prop} CfbPhys does not predict the image: {k} x{n}")
-        return {"images_predicted_exactly_by_CfbPhys": compared - len(set(ln.split(",")[2] for ln in drift)), "images_compared": compared,
-                "drift": kinds}
+        res = {"images_predicted_exactly_by_CfbPhys": compared - len(set(ln.split(",")[2] for ln in drift)), "images_compared": compared,
+               "drift": kinds}
+        res.update(self.open_summary(prop))
+        return res
+
+    def open_summary(self, prop):
+        """Trace_Open output: verdicts of the open-path model (CfbOpen) against the library's."""
+        tot = [0, 0, 0, 0]
+        seen = False
+        for ln in self.lines:
+            m = re.match(r'^<<"OPENED", (\d+), (\d+), (\d+), (\d+)>>', ln)
+            if m:
+                seen = True
+                for i in range(4):
+                    tot[i] += int(m.group(i + 1))
+        if not seen:
+            return {}
+        od = [ln for ln in self.lines if ln.startswith('<<"ODRIFT"')]
+        kinds = {}
+        for ln in od:
+            parts = ln.split('"')
+            k = f"{parts[3]} {parts[5]} {parts[7]}"
+            kinds[k] = kinds.get(k, 0) + 1
+        for k, n in sorted(kinds.items())[:12]:
+            print(f"SPEC-DRIFT {prop} CfbOpen and the library disagree about an image: {k} x{n}")
+        return {"open_verdicts_compared_with_CfbOpen": tot[0], "open_verdicts_not_judged_by_the_model": tot[1],
+                "model_accepts": tot[2], "model_rejects": tot[3], "open_drift": kinds}
 
 
 FILE_ASSUME = [
@@ -278,12 +304,18 @@ def check_c02(tier, seed):
     run_batch(out, "thresholds", "A", gens.threshold_histories(tier, seed))
     for dn, hs in random_batches(seed + 1, tier, 50, 500, 40, dicts=("A",), reopen_p=0.06).items():
         run_batch(out, f"forks{dn}", dn, gens.with_forks(rng, hs, 0.7))
-    run_batch(out, "edges", "A", edges_namespace(out, tier))
+    fid = Fidelity()
+    for v4 in (False, True):
+        design_phys(out, 4 if tier == "quick" else 5, v4, False, invs="InvOpen InvWF",
+                    what="every image the write-path model produces is accepted by the open-path model (CfbOpen), strictly and permissively, with the same tables")
+    run_batch(out, "edges", "A", edges_namespace(out, tier), extra_specs=("Trace_Open",), keep=fid.lines)
     return finish(out, "model_checking",
                   "after EVERY operation the backing bytes are copied without flush and reopened strictly and permissively; "
                   "both dumps must equal the model tree (hence the live view). Forked histories continue on the reopened file. "
-                  "Threshold histories add directory / FAT / MiniFAT (thorough: DIFAT) sectors at real geometry",
-                  FILE_ASSUME + ["crash points are operation boundaries at which no handle holds pending data (all driver ops flush)"])
+                  "Threshold histories add directory / FAT / MiniFAT (thorough: DIFAT) sectors at real geometry; design level: InvOpen of MC_Phys "
+                  "(write-path model x open-path model, exhaustive at tiny geometry); fidelity: Trace_Open compares CfbOpen's verdict with the library's on every image",
+                  FILE_ASSUME + ["crash points are operation boundaries at which no handle holds pending data (all driver ops flush)"],
+                  {"fidelity": fid.open_summary("C02")})
 
 
 def check_c03(tier, seed):
